@@ -420,18 +420,18 @@ Lemma sim_del_exc l e sg : sg e = false -> sim_stmt (Del l e false) sg [(l, e, f
 Proof.
   intros Hb st g Hi Hw He HA HK. simpl in *.
   destruct (v_del_sound g st l e false sg Hi He HA) as (A & K & J).
-  split; [|split; auto]. constructor; auto. rewrite Hb in J. apply J. reflexivity.
+  split; [|split; auto]. constructor; auto. specialize (J eq_refl). unfold justified in *. rewrite Hb in J. exact J.
 Qed.
 
 Lemma sim_seq a b sg t1 s1 t2 o s2 :
   sim_stmt a sg t1 ONorm s1 -> sim_stmt b s1 t2 o s2 -> sim_stmt (Seq a b) sg (t1 ++ t2) o s2.
 Proof.
-  intros IHa IHb st g Hi Hw He HA HK. simpl in *. apply andb_true_iff in Hw. destruct Hw as [Hwa Hwb].
+  intros IHa IHb st g Hi Hw He HA HK. simpl in *. cbv zeta in *. apply andb_true_iff in Hw. destruct Hw as [Hwa Hwb].
   set (X1 := visit true a st) in *.
   assert (R1 : R 0 st X1) by (apply visit_R00; auto).
   assert (E1 : ext X1 g).
   { destruct (cur X1); auto. eapply ext_back; [apply visit_R00, (R_inv _ _ _ R1)|exact He]. }
-  destruct (IHa st g Hi Hwa E1 HA HK) as [J1 [K1 A1]]. simpl in A1.
+  destruct (IHa st g Hi Hwa E1 HA HK) as [J1 [K1 A1]]. simpl in A1. fold X1 in A1.
   destruct (at_cur_some _ _ _ A1) as [b1 Hc1]. rewrite Hc1 in *.
   assert (Hw2 : wf (inl X1) b = true) by (rewrite (inl_eq X1 st); auto; apply visit_loops).
   rewrite <- (visit_excs a st) in K1. fold X1 in K1.
@@ -443,7 +443,7 @@ Qed.
 Lemma sim_seq_stop a b sg t1 o s1 : o <> ONorm ->
   sim_stmt a sg t1 o s1 -> sim_stmt (Seq a b) sg t1 o s1.
 Proof.
-  intros Ho IHa st g Hi Hw He HA HK. simpl in *. apply andb_true_iff in Hw. destruct Hw as [Hwa Hwb].
+  intros Ho IHa st g Hi Hw He HA HK. simpl in *. cbv zeta in *. apply andb_true_iff in Hw. destruct Hw as [Hwa Hwb].
   set (X1 := visit true a st) in *.
   assert (R1 : R 0 st X1) by (apply visit_R00; auto).
   assert (R2 : R 0 X1 (match cur X1 with Some _ => visit true b X1 | None => X1 end)).
@@ -452,3 +452,397 @@ Proof.
   destruct (IHa st g Hi Hwa E1 HA HK) as [J1 P1].
   split; auto. eapply post_mono; [|exact Ho|exact P1]. apply ext_edges, (R_ext _ _ _ R2).
 Qed.
+
+Ltac RV :=
+  repeat (Rauto; lazymatch goal with
+                 | |- R _ _ (visit true _ _) => apply (proj1 (visit_R true))
+                 | |- R _ _ (if _ then _ else _) => fail
+                 | |- _ => fail end).
+
+Ltac ceq_auto :=
+  repeat lazymatch goal with
+  | |- ceq ?a ?a => apply ceq_refl
+  | |- ceq _ (nextblock_from _ _) => eapply ceq_trans; [|apply ceq_nextblock_from]
+  | |- ceq _ (nextblock _) => eapply ceq_trans; [|apply ceq_nextblock_from]
+  | |- ceq _ (refs _ _) => eapply ceq_trans; [|apply ceq_refs]
+  | |- ceq _ (asgs _ _) => eapply ceq_trans; [|apply ceq_asgs]
+  | |- ceq _ (link_cur _ _) => eapply ceq_trans; [|apply ceq_add_edge_o]
+  | |- ceq _ (add_edge_o _ _ _) => eapply ceq_trans; [|apply ceq_add_edge_o]
+  | |- ceq _ (visit true _ _) => eapply ceq_trans; [|apply (proj1 (visit_ceq true))]
+  | |- ceq ?a (newblock ?X) => change (ceq a X)
+  | |- ceq ?a (add_edge _ _ ?X) => change (ceq a X)
+  | |- ceq ?a (set_cur _ ?X) => change (ceq a X)
+  end.
+
+Lemma cip_sound g Y N sg : len Y N = 0 -> has_parents N Y = true -> P g N 0 sg ->
+  at_cur g (cur_if_parents N Y) sg.
+Proof.
+  intros HL HP H. unfold cur_if_parents. rewrite HP. exists N. split; [reflexivity|].
+  change (len (set_cur (Some N) Y) N) with (len Y N). now rewrite HL.
+Qed.
+
+Lemma inv_cur_lt X b : inv X -> cur X = Some b -> b < nb X.
+Proof. intros [_ H]. apply H. Qed.
+
+Lemma R_from n X Y : (forall Z, R n Z X -> R n Z Y) -> inv X -> n <= nb X -> R n X Y.
+Proof. intros H Hi Hn. apply H. apply R_refl; auto. Qed.
+
+Section IfCase.
+  Variables (c : list nref) (th : stmt) (hasel : bool) (el : stmt).
+  Variables (st g : bst) (sg : state).
+  Hypothesis Hi : inv st.
+  Hypothesis Hw : wf (inl st) (If c th hasel el) = true.
+  Hypothesis He : ext (visit true (If c th hasel el) st) g.
+  Hypothesis HA : at_cur g st sg.
+  Hypothesis HK : Kexc g (excs st) sg.
+
+  Let N := nb st.
+  Let X3 := refs c (nextblock (newblock st)).
+  Let X4 := nextblock X3.
+  Let X5 := visit true th X4.
+  Let X6 := link_cur N X5.
+  Let X7 := if hasel then link_cur N (visit true el (nextblock_from (cur X3) X6))
+            else add_edge_o (cur X3) N X6.
+
+  Lemma if_final : visit true (If c th hasel el) st = cur_if_parents N X7.
+  Proof. reflexivity. Qed.
+
+  Lemma if_R3 : R (S N) (newblock st) X3.
+  Proof. unfold X3. apply R_from; [intros Z HZ; RV|exact (R_inv _ _ _ (R_newblock _ _ _ (R0 _ Hi)))|simpl; unfold N; lia]. Qed.
+  Lemma if_nb3 : S N <= nb X3.
+  Proof. pose proof (R_nb _ _ _ if_R3). simpl in *. unfold N. lia. Qed.
+  Lemma if_R4n n : n <= nb X3 -> R n X3 X4.
+  Proof. intros Hn. apply R_from; [intros Z HZ; unfold X4; RV|exact (R_inv _ _ _ if_R3)|exact Hn]. Qed.
+  Lemma if_nb4 : nb X3 < nb X4.
+  Proof. unfold X4. rewrite nb_nextblock. lia. Qed.
+  Lemma if_R5n n : n <= nb X4 -> R n X4 X5.
+  Proof. intros Hn. apply R_from; [intros Z HZ; unfold X5; RV|exact (R_inv _ _ _ (if_R4n 0 ltac:(lia)))|exact Hn]. Qed.
+  Lemma if_nb5 : nb X4 <= nb X5.
+  Proof. apply (R_nb 0 X4 X5), if_R5n. lia. Qed.
+  Lemma if_R6n n : n <= nb X5 -> R n X5 X6.
+  Proof. intros Hn. apply R_from; [intros Z HZ; unfold X6; RV|exact (R_inv _ _ _ (if_R5n 0 ltac:(lia)))|exact Hn]. Qed.
+  Lemma if_nb6 : nb X5 <= nb X6.
+  Proof. apply (R_nb 0 X5 X6), if_R6n. lia. Qed.
+  Lemma if_R7n n : n <= nb X6 -> R n X6 X7.
+  Proof. intros Hn. apply R_from; [intros Z HZ; unfold X7; destruct hasel; RV|exact (R_inv _ _ _ (if_R6n 0 ltac:(lia)))|exact Hn]. Qed.
+  Lemma if_R4 : R (S N) X3 X4. Proof. apply if_R4n, if_nb3. Qed.
+  Lemma if_R5 : R (S N) X4 X5. Proof. apply if_R5n. pose proof if_nb3. pose proof if_nb4. lia. Qed.
+  Lemma if_R6 : R (S N) X5 X6. Proof. apply if_R6n. pose proof if_nb3. pose proof if_nb4. pose proof if_nb5. lia. Qed.
+  Lemma if_R7 : R (S N) X6 X7.
+  Proof. apply if_R7n. pose proof if_nb3. pose proof if_nb4. pose proof if_nb5. pose proof if_nb6. lia. Qed.
+
+  Lemma if_E7 : ext X7 g.
+  Proof. rewrite if_final in He. eapply ext_trans; [|exact He]. split; [exists []; reflexivity|apply incl_refl]. Qed.
+  Lemma if_E6 : ext X6 g. Proof. eapply ext_trans; [apply (R_ext _ _ _ if_R7)|apply if_E7]. Qed.
+  Lemma if_E5 : ext X5 g. Proof. eapply ext_trans; [apply (R_ext _ _ _ if_R6)|apply if_E6]. Qed.
+  Lemma if_E4 : ext X4 g. Proof. eapply ext_trans; [apply (R_ext _ _ _ if_R5)|apply if_E5]. Qed.
+  Lemma if_E3 : ext X3 g. Proof. eapply ext_trans; [apply (R_ext _ _ _ if_R4)|apply if_E4]. Qed.
+
+  Lemma if_lenN : len X7 N = 0.
+  Proof.
+    assert (H : R (S N) (newblock st) X7).
+    { eapply R_trans; [apply if_R3|]. eapply R_trans; [apply if_R4|]. eapply R_trans; [apply if_R5|].
+      eapply R_trans; [apply if_R6|apply if_R7]. }
+    rewrite (len_frame _ _ _ N H); [|lia|].
+    - apply (len_fresh st); auto.
+    - simpl. destruct HA as (b & Hc & _). rewrite Hc. intros E. inversion E.
+      pose proof (inv_cur_lt _ _ Hi Hc). unfold N in *. lia.
+  Qed.
+
+  Lemma if_ceq4 : ceq st X4.
+  Proof. unfold X4, X3. ceq_auto. Qed.
+
+  (* the condition has been evaluated *)
+  Lemma if_cond tr ok : eval_refs sg c tr ok -> at_cur g X3 sg /\ Forall (justified g) tr.
+  Proof.
+    intros Hev. unfold X3 in *.
+    assert (R2 : R 0 st (nextblock (newblock st))) by (apply R_from; [intros; RV|exact Hi|lia]).
+    apply refs_sound with (ok := ok); auto.
+    - exact (R_inv _ _ _ R2).
+    - apply if_E3.
+    - apply at_cur_nextblock; [exact (R_inv _ _ _ (R_newblock _ _ _ (R0 _ Hi)))| |exact HA].
+      eapply ext_trans; [|apply if_E3]. apply (R_ext 0). apply R_refs, R0, (R_inv _ _ _ R2).
+  Qed.
+
+  Lemma if_exc tr : eval_refs sg c tr false ->
+    Forall (justified g) tr /\ post g st (visit true (If c th hasel el) st) OExc sg.
+  Proof. intros Hev. destruct (if_cond tr false Hev). split; auto. split; auto. Qed.
+
+  Lemma if_then t1 t2 o s2 : eval_refs sg c t1 true -> sim_stmt th sg t2 o s2 ->
+    Forall (justified g) (t1 ++ t2) /\ post g st (visit true (If c th hasel el) st) o s2.
+  Proof.
+    intros Hev IH. destruct (if_cond t1 true Hev) as [A3 J1].
+    assert (A4 : at_cur g X4 sg).
+    { apply at_cur_nextblock; [exact (R_inv _ _ _ if_R3)|apply if_E4|exact A3]. }
+    destruct if_ceq4 as [CL CE].
+    assert (Hw4 : wf (inl X4) th = true).
+    { rewrite (inl_eq X4 st CL). simpl in Hw. apply andb_true_iff in Hw. tauto. }
+    assert (K4 : Kexc g (excs X4) sg) by (rewrite CE; exact HK).
+    destruct (IH X4 g (R_inv _ _ _ if_R4) Hw4 if_E5 A4 K4) as [J2 P5]. fold X5 in P5.
+    split; [apply Forall_app; auto|].
+    apply (post_ctx g st X4) in P5; auto.
+    destruct o.
+    - (* falls through: the edge to next_block *)
+      destruct P5 as [K5 A5].
+      destruct (link_cur_sound g X5 N s2 if_E6 A5) as [PN HP]. fold X6 in HP.
+      rewrite if_final. split; auto. apply cip_sound; auto.
+      + apply if_lenN.
+      + eapply hp_mono; [|exact HP]. apply ext_edges, (R_ext _ _ _ if_R7).
+    - eapply post_mono; [| |exact P5]; [|discriminate]. rewrite if_final. simpl.
+      eapply incl_tran; [apply ext_edges, (R_ext _ _ _ if_R6)|apply ext_edges, (R_ext _ _ _ if_R7)].
+    - eapply post_mono; [| |exact P5]; [|discriminate]. rewrite if_final. simpl.
+      eapply incl_tran; [apply ext_edges, (R_ext _ _ _ if_R6)|apply ext_edges, (R_ext _ _ _ if_R7)].
+    - eapply post_mono; [| |exact P5]; [|discriminate]. rewrite if_final. simpl.
+      eapply incl_tran; [apply ext_edges, (R_ext _ _ _ if_R6)|apply ext_edges, (R_ext _ _ _ if_R7)].
+    - eapply post_mono; [| |exact P5]; [|discriminate]. rewrite if_final. simpl.
+      eapply incl_tran; [apply ext_edges, (R_ext _ _ _ if_R6)|apply ext_edges, (R_ext _ _ _ if_R7)].
+  Qed.
+
+  (* the position at the end of the condition block is still there when the else branch starts *)
+  Lemma if_cond_end : at_cur g X3 sg ->
+    exists bc, cur X3 = Some bc /\ bc < nb X6 /\ P g bc (len X6 bc) sg.
+  Proof.
+    intros (bc & Hc & HP). exists bc. pose proof (inv_cur_lt _ _ (R_inv _ _ _ if_R3) Hc) as Hlt.
+    pose proof if_nb4. pose proof if_nb5. pose proof if_nb6.
+    split; auto. split; [lia|].
+    assert (H46 : R (nb X4) X4 X6).
+    { eapply R_trans; [apply if_R5n; lia|apply if_R6n; lia]. }
+    rewrite (len_frame _ _ _ bc H46); [|lia|].
+    - assert (E : len X4 bc = len X3 bc) by (unfold X4, nextblock; apply len_nextblock_from).
+      now rewrite E.
+    - unfold X4. simpl. intros E. inversion E. lia.
+  Qed.
+
+  Lemma if_skip t1 : hasel = false -> eval_refs sg c t1 true ->
+    Forall (justified g) t1 /\ post g st (visit true (If c th hasel el) st) ONorm sg.
+  Proof.
+    intros Hh Hev. destruct (if_cond t1 true Hev) as [A3 J1]. split; auto. split; auto.
+    destruct (if_cond_end A3) as (bc & Hc & Hlt & HP).
+    rewrite if_final. pose proof if_E7 as E7. pose proof if_lenN as LN. unfold X7 in *. rewrite Hh in *.
+    rewrite Hc in *. simpl in *.
+    destruct (add_edge_sound g X6 bc N sg E7 HP) as [PN HPn]. apply cip_sound; auto.
+  Qed.
+
+  Lemma if_else t1 t2 o s2 : hasel = true -> eval_refs sg c t1 true -> sim_stmt el sg t2 o s2 ->
+    Forall (justified g) (t1 ++ t2) /\ post g st (visit true (If c th hasel el) st) o s2.
+  Proof.
+    intros Hh Hev IH. destruct (if_cond t1 true Hev) as [A3 J1].
+    destruct (if_cond_end A3) as (bc & Hc & Hlt & HP).
+    pose proof if_E7 as E7. pose proof if_lenN as LN. unfold X7 in E7, LN. rewrite Hh, Hc in E7, LN.
+    set (Y := nextblock_from (Some bc) X6) in *.
+    assert (I6 : inv X6) by exact (R_inv _ _ _ (if_R6n 0 ltac:(lia))).
+    assert (RY : R 0 X6 Y) by (apply R_from; [intros; unfold Y; RV|exact I6|lia]).
+    assert (RV1 : R 0 Y (visit true el Y)) by (apply visit_R00, (R_inv _ _ _ RY)).
+    assert (RL : R 0 (visit true el Y) (link_cur N (visit true el Y))) by (apply R_link_cur, R0, (R_inv _ _ _ RV1)).
+    assert (EV : ext (visit true el Y) g) by (eapply ext_back; eauto).
+    assert (EY : ext Y g) by (eapply ext_back; eauto).
+    assert (AY : at_cur g Y sg) by (apply at_cur_nextblock_from; auto).
+    assert (CY : ceq st Y).
+    { unfold Y, X6, X5. ceq_auto. apply if_ceq4. }
+    destruct CY as [CL CE].
+    assert (HwY : wf (inl Y) el = true).
+    { rewrite (inl_eq Y st CL). simpl in Hw. apply andb_true_iff in Hw. tauto. }
+    assert (KY : Kexc g (excs Y) sg) by (rewrite CE; exact HK).
+    destruct (IH Y g (R_inv _ _ _ RY) HwY EV AY KY) as [J2 PV].
+    split; [apply Forall_app; auto|].
+    apply (post_ctx g st Y) in PV; auto.
+    rewrite if_final. unfold X7. rewrite Hh, Hc. fold Y.
+    destruct o.
+    - destruct PV as [KV AV].
+      destruct (link_cur_sound g _ N s2 E7 AV) as [PN HPn].
+      split; auto. apply cip_sound; auto.
+    - eapply post_mono; [| |exact PV]; [|discriminate]. apply ext_edges, (R_ext _ _ _ RL).
+    - eapply post_mono; [| |exact PV]; [|discriminate]. apply ext_edges, (R_ext _ _ _ RL).
+    - eapply post_mono; [| |exact PV]; [|discriminate]. apply ext_edges, (R_ext _ _ _ RL).
+    - eapply post_mono; [| |exact PV]; [|discriminate]. apply ext_edges, (R_ext _ _ _ RL).
+  Qed.
+End IfCase.
+
+Lemma sim_if_exc c th h el sg tr : eval_refs sg c tr false -> sim_stmt (If c th h el) sg tr OExc sg.
+Proof. intros Hev st g Hi Hw He HA HK. eapply if_exc; eauto. Qed.
+Lemma sim_if_then c th h el sg t1 t2 o s2 : eval_refs sg c t1 true -> sim_stmt th sg t2 o s2 ->
+  sim_stmt (If c th h el) sg (t1 ++ t2) o s2.
+Proof. intros Hev IH st g Hi Hw He HA HK. eapply if_then; eauto. Qed.
+Lemma sim_if_else c th el sg t1 t2 o s2 : eval_refs sg c t1 true -> sim_stmt el sg t2 o s2 ->
+  sim_stmt (If c th true el) sg (t1 ++ t2) o s2.
+Proof. intros Hev IH st g Hi Hw He HA HK. eapply if_else; eauto. Qed.
+Lemma sim_if_skip c th el sg t1 : eval_refs sg c t1 true -> sim_stmt (If c th false el) sg t1 ONorm sg.
+Proof. intros Hev st g Hi Hw He HA HK. eapply if_skip; eauto. Qed.
+
+(* ------------------------------------------------------------------ jumps *)
+Lemma chain_edges_ext fs T : forall src k X, ext X (chain_edges src k fs T X).
+Proof.
+  induction fs as [|y r IHr]; intros a b Y; simpl.
+  - apply ext_add_edge_k.
+  - destruct (x_fin y) as [[fe' [[fxb' kx']|]]|]; auto.
+    + eapply ext_trans; [apply ext_add_edge_k|apply IHr]. + apply ext_add_edge_k.
+Qed.
+
+Lemma chain_edges_sound2 g Y fs T : forall src k X sg,
+  ext (chain_edges src k fs T X) g -> incl (eds (chain_edges src k fs T X)) (eds Y) ->
+  P g src k sg -> chain g fs (fun s => P g T 0 s /\ has_parents T Y = true) sg.
+Proof.
+  induction fs as [|x r IH]; intros src k X sg He Hy HP; simpl in *.
+  - split.
+    + eapply P_edge_ext; [|exact He|exact HP]. simpl; auto.
+    + unfold has_parents. apply existsb_exists. exists (src, k, T). split; [apply Hy; simpl; auto|].
+      simpl. apply Nat.eqb_refl.
+  - destruct (x_fin x) as [[fe [[fxb kx]|]]|].
+    + assert (E1 : ext (add_edge_k src k fe X) g).
+      { eapply ext_trans; [|exact He]. apply chain_edges_ext. }
+      split.
+      * eapply P_edge_ext; [|exact E1|exact HP]. simpl; auto.
+      * intros s2 H2. eapply IH; eauto.
+    + eapply P_edge_ext; [|exact He|exact HP]. simpl; auto.
+    + eapply IH; eauto.
+Qed.
+
+Lemma inl_true st : inl st = true -> exists L r, loops st = L :: r.
+Proof. unfold inl. destruct (loops st) as [|L r]; [discriminate|eauto]. Qed.
+
+Lemma sim_break sg : sim_stmt Break sg [] OBrk sg.
+Proof.
+  intros st g Hi Hw He HA HK. simpl in *. split; [constructor|]. split; auto.
+  destruct (inl_true st Hw) as (L & r & HL). destruct HA as (b & Hc & HP).
+  unfold v_break in *. rewrite HL, Hc in *.
+  eapply chain_edges_sound2; [exact He| |exact HP]. apply incl_refl.
+Qed.
+
+Lemma sim_continue sg : sim_stmt Continue sg [] OCont sg.
+Proof.
+  intros st g Hi Hw He HA HK. simpl in *. split; [constructor|]. split; auto.
+  destruct (inl_true st Hw) as (L & r & HL). destruct HA as (b & Hc & HP).
+  unfold v_break in *. rewrite HL, Hc in *.
+  eapply chain_impl; [|eapply chain_edges_sound2; [exact He|apply incl_refl|exact HP]].
+  intros s [A _]. exact A.
+Qed.
+
+Lemma sim_return sg : sim_stmt Return sg [] ORet sg.
+Proof.
+  intros st g Hi Hw He HA HK. simpl in *. split; [constructor|]. split; auto.
+  destruct HA as (b & Hc & HP). unfold v_return in *. rewrite Hc in *.
+  eapply chain_impl; [|eapply chain_edges_sound2; [exact He|apply incl_refl|exact HP]].
+  intros s [A _]. exact A.
+Qed.
+
+Lemma sim_raise sg : sim_stmt Raise sg [] OExc sg.
+Proof. intros st g Hi Hw He HA HK. split; [constructor|]. split; auto. Qed.
+
+(* ------------------------------------------------------------------ try / finally *)
+Lemma inv_of n X Y : R n X Y -> inv Y. Proof. apply R_inv. Qed.
+
+Section TryFinCase.
+  Variables (body fexc fnorm : stmt) (st g : bst) (sg : state).
+  Hypothesis Hi : inv st.
+  Hypothesis Hw : wf (inl st) (TryFin body fexc fnorm) = true.
+  Hypothesis He : ext (visit true (TryFin body fexc fnorm) st) g.
+  Hypothesis HA : at_cur g st sg.
+  Hypothesis HK : Kexc g (excs st) sg.
+
+  Local Definition B := nb st.
+  Local Definition EP := S (nb st).
+  Local Definition X1 := set_cur (Some EP) (newblock (nextblock st)).
+  Local Definition X2 := exc_edge X1.
+  Local Definition X3 := visit true fexc X2.
+  Local Definition X4 := match cur X3, excs X3 with Some b, x :: _ => add_edge b (x_entry x) X3 | _, _ => X3 end.
+  Local Definition FE := nb X4.
+  Local Definition X5 := set_cur (Some FE) (newblock X4).
+  Local Definition X6 := visit true fnorm X5.
+  Local Definition fexit := match cur X6 with Some b => Some (b, len X6 b) | None => None end.
+  Local Definition d := mk_excd EP (Some (FE, fexit)).
+  Local Definition X7 := push_exc d (push_loop_exc d X6).
+  Local Definition X8 := nextblock (add_edge B EP (set_cur (Some B) X7)).
+  Local Definition X9v := visit true body X8.
+  Local Definition X9 := pop_loop_exc (pop_exc X9v).
+  Local Definition XF := match cur X9 with
+            | Some b => let s1 := add_edge b FE X9 in
+                match fexit with
+                | Some (fxb, k) => set_cur (Some (nb s1)) (add_edge_k fxb k (nb s1) (newblock s1))
+                | None => set_cur None s1 end
+            | None => X9 end.
+
+  Lemma tf_final : visit true (TryFin body fexc fnorm) st = XF.
+  Proof. reflexivity. Qed.
+
+  Lemma tf_nb1 : nb X1 = S (S B).
+  Proof. unfold X1. change (nb (set_cur (Some EP) (newblock (nextblock st)))) with (S (nb (nextblock st))).
+    now rewrite nb_nextblock. Qed.
+  Lemma tf_R01 : R 0 st X1.
+  Proof. unfold X1. apply R_set_cur_some; [lia| |].
+    - change (nb (newblock (nextblock st))) with (S (nb (nextblock st))). rewrite nb_nextblock. unfold EP. lia.
+    - apply R_newblock, R_nextblock, R0, Hi.
+  Qed.
+  Lemma tf_I1 : inv X1. Proof. exact (R_inv _ _ _ tf_R01). Qed.
+  Lemma tf_R12 n : n <= nb X1 -> R n X1 X2.
+  Proof. intros. apply R_from; [intros Z HZ; unfold X2; RV|exact tf_I1|auto]. Qed.
+  Lemma tf_nb2 : nb X1 <= nb X2. Proof. apply (R_nb 0 X1 X2), tf_R12. lia. Qed.
+  Lemma tf_I2 : inv X2. Proof. exact (R_inv _ _ _ (tf_R12 0 ltac:(lia))). Qed.
+  Lemma tf_R23 n : n <= nb X2 -> R n X2 X3.
+  Proof. intros. apply R_from; [intros Z HZ; unfold X3; RV|exact tf_I2|auto]. Qed.
+  Lemma tf_nb3 : nb X2 <= nb X3. Proof. apply (R_nb 0 X2 X3), tf_R23. lia. Qed.
+  Lemma tf_I3 : inv X3. Proof. exact (R_inv _ _ _ (tf_R23 0 ltac:(lia))). Qed.
+  Lemma tf_R34 n : n <= nb X3 -> R n X3 X4.
+  Proof. intros. apply R_from; [intros Z HZ; unfold X4; destruct (cur X3); [destruct (excs X3)|]; RV|exact tf_I3|auto]. Qed.
+  Lemma tf_nb4 : nb X3 <= nb X4. Proof. apply (R_nb 0 X3 X4), tf_R34. lia. Qed.
+  Lemma tf_I4 : inv X4. Proof. exact (R_inv _ _ _ (tf_R34 0 ltac:(lia))). Qed.
+  Lemma tf_R45 n : n <= nb X4 -> R n X4 X5.
+  Proof. intros. unfold X5. apply R_set_cur_some; [unfold FE; lia|simpl; unfold FE; lia|].
+    apply R_newblock, R_refl; [exact tf_I4|auto]. Qed.
+  Lemma tf_nb5 : nb X5 = S (nb X4). Proof. reflexivity. Qed.
+  Lemma tf_I5 : inv X5. Proof. exact (R_inv _ _ _ (tf_R45 0 ltac:(lia))). Qed.
+  Lemma tf_R56 n : n <= nb X5 -> R n X5 X6.
+  Proof. intros. apply R_from; [intros Z HZ; unfold X6; RV|exact tf_I5|auto]. Qed.
+  Lemma tf_nb6 : nb X5 <= nb X6. Proof. apply (R_nb 0 X5 X6), tf_R56. lia. Qed.
+  Lemma tf_I6 : inv X6. Proof. exact (R_inv _ _ _ (tf_R56 0 ltac:(lia))). Qed.
+  Lemma tf_R67 n : n <= nb X6 -> R n X6 X7.
+  Proof. intros. apply R_from; [intros Z HZ; unfold X7; RV|exact tf_I6|auto]. Qed.
+  Lemma tf_I7 : inv X7. Proof. exact (R_inv _ _ _ (tf_R67 0 ltac:(lia))). Qed.
+  Lemma tf_nb7 : nb X7 = nb X6.
+  Proof. unfold X7, push_loop_exc. simpl. destruct (loops X6); reflexivity. Qed.
+
+  Lemma tf_R17 : R (S B) X1 X7.
+  Proof.
+    pose proof tf_nb1. pose proof tf_nb2. pose proof tf_nb3. pose proof tf_nb4. pose proof tf_nb5. pose proof tf_nb6.
+    eapply R_trans; [apply tf_R12; lia|]. eapply R_trans; [apply tf_R23; lia|].
+    eapply R_trans; [apply tf_R34; lia|]. eapply R_trans; [apply tf_R45; lia|].
+    eapply R_trans; [apply tf_R56; lia|apply tf_R67; lia].
+  Qed.
+
+  Lemma tf_B_lt : B < nb X7.
+  Proof. pose proof (R_nb _ _ _ tf_R17). pose proof tf_nb1. lia. Qed.
+
+  Lemma tf_lenB : len X7 B = 0 /\ cur X7 <> Some B.
+  Proof.
+    destruct tf_R17 as (_ & _ & _ & _ & F). destruct (F B) as [L C]; [lia| |].
+    - unfold X1, EP, B. simpl. intros E. inversion E. lia.
+    - split; auto. rewrite L. unfold X1.
+      change (len (set_cur (Some EP) (newblock (nextblock st))) B) with (len (nextblock st) B).
+      unfold nextblock. rewrite len_nextblock_from. apply len_fresh; auto.
+  Qed.
+
+  Lemma tf_R78 : R 0 X7 X8.
+  Proof. unfold X8. apply R_nextblock, R_add_edge, R_set_cur_some; [lia|apply tf_B_lt|apply R0, tf_I7]. Qed.
+  Lemma tf_I8 : inv X8. Proof. exact (R_inv _ _ _ tf_R78). Qed.
+  Lemma tf_R89 : R 0 X8 X9.
+  Proof. apply R_from; [intros Z HZ; unfold X9, X9v; RV|exact tf_I8|lia]. Qed.
+  Lemma tf_I9 : inv X9. Proof. exact (R_inv _ _ _ tf_R89). Qed.
+  Lemma tf_R9F : R 0 X9 XF.
+  Proof.
+    unfold XF. destruct (cur X9) as [b|]; [|apply R0, tf_I9]. cbv zeta.
+    destruct fexit as [[fxb k]|].
+    - apply R_set_cur_some; [lia|simpl; lia|]. apply R_add_edge_k, R_newblock, R_add_edge, R0, tf_I9.
+    - apply R_set_cur_none, R_add_edge, R0, tf_I9.
+  Qed.
+
+  Lemma tf_EF : ext XF g. Proof. rewrite tf_final in He. exact He. Qed.
+  Lemma tf_E9 : ext X9 g. Proof. eapply ext_back; [apply tf_R9F|apply tf_EF]. Qed.
+  Lemma tf_E9v : ext X9v g. Proof. exact tf_E9. Qed.
+  Lemma tf_E8 : ext X8 g. Proof. eapply ext_back; [apply tf_R89|apply tf_E9]. Qed.
+  Lemma tf_E7 : ext X7 g. Proof. eapply ext_back; [apply tf_R78|apply tf_E8]. Qed.
+  Lemma tf_E6 : ext X6 g. Proof. eapply ext_back; [apply (tf_R67 0); lia|apply tf_E7]. Qed.
+  Lemma tf_E5 : ext X5 g. Proof. eapply ext_back; [apply (tf_R56 0); lia|apply tf_E6]. Qed.
+  Lemma tf_E4 : ext X4 g. Proof. eapply ext_back; [apply (tf_R45 0); lia|apply tf_E5]. Qed.
+  Lemma tf_E3 : ext X3 g. Proof. eapply ext_back; [apply (tf_R34 0); lia|apply tf_E4]. Qed.
+  Lemma tf_E2 : ext X2 g. Proof. eapply ext_back; [apply (tf_R23 0); lia|apply tf_E3]. Qed.
+  Lemma tf_E1 : ext X1 g. Proof. eapply ext_back; [apply (tf_R12 0); lia|apply tf_E2]. Qed.
+End TryFinCase.
